@@ -265,12 +265,14 @@ ssize_t
 flenp_buffer_to_sink_n(const LengthPrefixKind k,
                        Sink *sink, ByteBuffer *b, size_t n)
 {
-    const size_t rest = byte_buffer_avail(b);
+    const size_t rest = byte_buffer_rest(b);
     if (n > rest) {
         return -EINVAL;
     }
-    const int rc = flenp_memory_to_sink(k, sink, b->data + b->offset, rest);
-    b->offset += rest;
+    const ssize_t rc = flenp_memory_to_sink(k, sink, b->data + b->offset, n);
+    if (rc >= 0) {
+        b->offset += n;
+    }
     return rc;
 }
 
